@@ -81,3 +81,36 @@ def snapshot_independence(run: Run):
             if W.diff(wb, W.w_circuit(b.to_circuit()), 0.0): run.violation("relabelling a snapshot changed the builder", {"perm": perm})
             if _qubit_ids(s1) & _qubit_ids(s2) or _qubit_ids(s1) & _qubit_ids(Circuit_ir_holder(b)):
                 run.violation("two snapshots (or a snapshot and the builder) share a Qubit object", {"perm": perm})
+
+
+def mapper_reuse(run: Run):
+    """A mapper / mapping object is an input: using it must not change it, and what it does to a circuit must not depend on what
+    was compiled with it before (also when it is shorter than the register, also when a call with it failed)."""
+    from opensquirrel import CircuitBuilder
+    from opensquirrel.mapper import HardcodedMapper
+    from opensquirrel.mapper.mapping import Mapping
+    def circ(n, used):
+        b = CircuitBuilder(n, 1)
+        for q in used: b.H(q)
+        if len(used) >= 2: b.CNOT(used[0], used[1])
+        return b.to_circuit()
+    for perm in ([1, 2, 0], [2, 0, 1], [1, 0]):
+        k = len(perm)
+        def fresh(): return HardcodedMapper(k, Mapping(list(perm)))
+        shared = fresh()
+        jobs = [(5, [0, 1]), (k, list(range(k))), (5, [k - 1, 0]), (k, [0]), (5, [4, 0]), (k, list(range(k)))]   # (register, qubits used); the 5th uses an uncovered qubit
+        for i, (n, used) in enumerate(jobs):
+            run.count({"mapper-reuse": perm, "job": i}, tag="mapper-reuse")
+            res = []
+            for mp in (shared, fresh()):
+                c_ = circ(n, used)
+                try:
+                    c_.map(mp); res.append(("ok", W.w_circuit(c_)))
+                except Exception as ex:
+                    res.append((O.err_name(ex), W.w_circuit(c_)))
+            if res[0][0] != res[1][0] or W.diff(res[0][1], res[1][1], 0.0):
+                run.violation(f"compilation {i} with a re-used mapper ({perm}) differs from the same compilation with a fresh mapper: {res[0][0]} vs {res[1][0]}", {"perm": perm, "job": i})
+                break
+            m_ = shared.get_mapping()
+            if m_.size() != k or [m_[j] for j in range(k)] != list(perm) or not (m_ == Mapping(list(perm))):
+                run.violation(f"using a mapper changed its mapping ({perm} became size {m_.size()})", {"perm": perm, "job": i}); break
